@@ -647,8 +647,60 @@ def decode_inst(E, m, fc, toks, bi, slot, operand, lidx, mk_jump, zero_of):
     if op in ('fence',):
         def f(st, fr, R): pass
         return f
-    if op in ('atomicrmw', 'cmpxchg'):
-        def f(st, fr, R): raise EngineLimit('atomic instruction %s' % op)
+    if op == 'atomicrmw':
+        # %old = atomicrmw [volatile] <binop> <ty>* <ptr>, <ty> <val> <ordering>: one indivisible load + store in the engine's
+        # interleaving model (instructions of one worker are never split; preemption points sit between instructions)
+        p.accept('kw', 'volatile')
+        rop = p.next()[1]
+        pt = m.parse_type(p); pr, pv = operand(p, pt); p.expect('sym', ',')
+        ty = m.parse_type(p); vr, vv = operand(p, ty)
+        rt = m.resolve(ty); n = m.sizeof(rt)
+        if not isinstance(rt, IntTy) or rt.bits % 8 != 0 or rop not in ('xchg', 'add', 'sub', 'and', 'or', 'xor', 'max', 'min', 'umax', 'umin', 'nand'):
+            def f(st, fr, R): raise EngineLimit('atomicrmw %s on this type' % rop)
+            return f
+        w = rt.bits; mk = (1 << w) - 1
+        def f(st, fr, R):
+            ptr = R[pv] if pr else pv
+            if ptr.__class__ is not Ptr: ptr = E.int_to_ptr(st, ptr)
+            v = R[vv] if vr else vv
+            old = E.load(st, ptr, n)
+            if old.__class__ is Ptr: old = E.ptr_addr(old)
+            if type(old) is int and type(v) is int:
+                so, sv = to_signed(old, w), to_signed(v, w)
+                new = {'xchg': v, 'add': (old + v) & mk, 'sub': (old - v) & mk, 'and': old & v, 'or': old | v, 'xor': old ^ v, 'nand': ~(old & v) & mk,
+                       'max': old if so >= sv else v, 'min': old if so <= sv else v, 'umax': max(old, v), 'umin': min(old, v)}[rop]
+            else:
+                A, B = bv(old, w), bv(v, w)
+                new = {'xchg': lambda: B, 'add': lambda: A + B, 'sub': lambda: A - B, 'and': lambda: A & B, 'or': lambda: A | B, 'xor': lambda: A ^ B, 'nand': lambda: ~(A & B),
+                       'max': lambda: z3.If(A >= B, A, B), 'min': lambda: z3.If(A <= B, A, B), 'umax': lambda: z3.If(z3.UGE(A, B), A, B), 'umin': lambda: z3.If(z3.ULE(A, B), A, B)}[rop]()
+            E.store(st, ptr, new, n)
+            R[d] = old
+        return f
+    if op == 'cmpxchg':
+        # %r = cmpxchg [weak] [volatile] <ty>* <ptr>, <ty> <cmp>, <ty> <new> <ord> <ord>  ->  { <ty>, i1 }  (never fails spuriously here)
+        p.accept('kw', 'weak'); p.accept('kw', 'volatile')
+        pt = m.parse_type(p); pr, pv = operand(p, pt); p.expect('sym', ',')
+        ty = m.parse_type(p); cr, cv = operand(p, ty); p.expect('sym', ',')
+        ty2 = m.parse_type(p); nr, nv = operand(p, ty2)
+        rt = m.resolve(ty); n = m.sizeof(rt)
+        if not isinstance(rt, IntTy) or rt.bits % 8 != 0:
+            def f(st, fr, R): raise EngineLimit('cmpxchg on this type')
+            return f
+        w = rt.bits
+        def f(st, fr, R):
+            ptr = R[pv] if pr else pv
+            if ptr.__class__ is not Ptr: ptr = E.int_to_ptr(st, ptr)
+            c = R[cv] if cr else cv; nw = R[nv] if nr else nv
+            old = E.load(st, ptr, n)
+            if old.__class__ is Ptr: old = E.ptr_addr(old)
+            if type(old) is int and type(c) is int:
+                ok = old == c
+                if ok: E.store(st, ptr, nw, n)
+                R[d] = [old, 1 if ok else 0]
+            else:
+                cond = bv(old, w) == bv(c, w)
+                E.store(st, ptr, z3.If(cond, bv(nw, w), bv(old, w)), n)
+                R[d] = [old, cond]
         return f
     msg = 'unsupported instruction: ' + ' '.join(str(v) for k, v in toks[:8])
     def f(st, fr, R): raise EngineLimit(msg)
